@@ -2,7 +2,7 @@
 
 package lake
 
-// lake.Branch / lake.Root level obligations (C12, C14, C15, C17): the real
+// lake.Branch / lake.Root level obligations (C12, C13, C14, C15, C17): the real
 // Branch.commit retry loop, Branch.Delete/Revert/mergeInto, Root.CreatePool/
 // RenamePool/RemovePool, journal.Store, branches.Store, pools.Store and
 // commits.Store run unmodified over the model storage engine of
@@ -17,14 +17,21 @@ package lake
 
 import (
 	"context"
+	"errors"
 	"strings"
 
 	"github.com/brimdata/super"
+	"github.com/brimdata/super/compiler/ast"
+	"github.com/brimdata/super/compiler/parser"
 	"github.com/brimdata/super/internal/verif"
 	"github.com/brimdata/super/lake/branches"
 	"github.com/brimdata/super/lake/commits"
 	"github.com/brimdata/super/lake/data"
 	"github.com/brimdata/super/lake/pools"
+	"github.com/brimdata/super/lakeparse"
+	"github.com/brimdata/super/runtime"
+	"github.com/brimdata/super/zbuf"
+	"github.com/brimdata/super/zio"
 	"github.com/segmentio/ksuid"
 )
 
@@ -175,6 +182,7 @@ const (
 	vOpRevert
 	vOpMerge
 	vOpCompact
+	vOpDeleteWhere
 )
 
 type vOp struct {
@@ -188,6 +196,7 @@ type vOp struct {
 	done     bool
 	id       ksuid.KSUID
 	err      error
+	seen     []string      // delete-where: the commit the query was compiled against, per invocation
 	parents  []ksuid.KSUID // load: parent handed to the create callback, per invocation
 	attempts []ksuid.KSUID // load: commit object built by each invocation
 	retries  []int
@@ -235,6 +244,8 @@ func (o *vOp) run(ctx context.Context, eng *vEngine) {
 			rollup = append(rollup, &obj)
 		}
 		o.id, o.err = b.CommitCompact(ctx, src, rollup, nil, "author", "message", "")
+	case vOpDeleteWhere:
+		o.id, o.err = b.DeleteWhere(ctx, &vCompiler{op: o}, nil, "author", "message", "")
 	}
 	o.done = true
 	eng.client = saved
@@ -250,7 +261,7 @@ func (o *vOp) apply(st *vObjSet) bool {
 		}
 		st[o.obj] = true
 		return true
-	case vOpDelete:
+	case vOpDelete, vOpDeleteWhere:
 		if !st[o.obj] {
 			return false
 		}
@@ -1351,13 +1362,13 @@ func VerifH_C12_O5_branch_names() {
 }
 
 // ---------------------------------------------------------------------------
-// C13-O3 commit snapshot files read while / after they are written
+// C13-O6 commit snapshot files read while / after they are written
 // ---------------------------------------------------------------------------
 
-// verif:desc C13-O3 real commits.Store.Snapshot (LRU, getSnapshot/putSnapshot of <commit>.snap.zng, fold of the commit chain) for the same commit from two clients with cold caches, client B's read running at any storage call of client A's read (A writes the persisted snapshot file), then a third cold client: every reader sees exactly the commit's contents, during and after the write of the derived file. Region split off: B reads while the file engine has created/truncated the snapshot file but not yet written it (/snap-truncated).
+// verif:desc C13-O6 real commits.Store.Snapshot (LRU, getSnapshot/putSnapshot of <commit>.snap.zng, fold of the commit chain) for the same commit from two clients with cold caches, client B's read running at any storage call of client A's read (A writes the persisted snapshot file), then a third cold client: every reader sees exactly the commit's contents, during and after the write of the derived file. Region split off: B reads while the file engine has created/truncated the snapshot file but not yet written it (/snap-truncated).
 // verif:bounds main = c1 adding {0,1}, optionally c2 deleting {0}; the commit read is the tip; atomic puts or create-then-fill puts; <= 1 preemption of A at every storage call
 // verif:outside torn writes inside one write call; queries (only the snapshot the scanner is built from)
-func VerifH_C13_O3_snapshot_read_during_write() {
+func VerifH_C13_O6_snapshot_read_during_write() {
 	ctx := context.Background()
 	fill := verif.Choose("fill", 2) == 1
 	eng := vNewEngine(fill)
@@ -1505,3 +1516,233 @@ func VerifH_C14_O7_branch_history() { vBranchHistory(2) }
 // verif:outside as VerifH_C14_O7_branch_history
 // verif:tier thorough
 func VerifH_C14_O7_branch_history_deep() { vBranchHistory(3) }
+
+// ---------------------------------------------------------------------------
+// C12-O6 Branch.DeleteWhere over a model compiler
+// ---------------------------------------------------------------------------
+
+// vCompiler is the environment of Branch.DeleteWhere: a runtime.Compiler whose
+// delete query, compiled against the commit named by the commitish, selects
+// every value of data object op.obj (so the object is in the deletion set iff
+// it is in that commit's snapshot, and no value is left to rewrite).
+type vCompiler struct {
+	op *vOp
+}
+
+type vDeleteQuery struct {
+	deleted []ksuid.KSUID
+}
+
+func (q *vDeleteQuery) Pull(bool) (zbuf.Batch, error) { return nil, nil }
+func (q *vDeleteQuery) Close() error                  { return nil }
+func (q *vDeleteQuery) Progress() zbuf.Progress       { return zbuf.Progress{} }
+func (q *vDeleteQuery) Meter() zbuf.Meter             { return &zbuf.Progress{} }
+func (q *vDeleteQuery) DeletionSet() []ksuid.KSUID    { return q.deleted }
+
+func (c *vCompiler) NewQuery(*runtime.Context, ast.Seq, []zio.Reader) (runtime.Query, error) {
+	return nil, errors.New("verif: not modelled")
+}
+
+func (c *vCompiler) NewLakeQuery(*runtime.Context, ast.Seq, int, *lakeparse.Commitish) (runtime.Query, error) {
+	return nil, errors.New("verif: not modelled")
+}
+
+func (c *vCompiler) Parse(string, ...string) (ast.Seq, *parser.SourceSet, error) {
+	return nil, nil, errors.New("verif: not modelled")
+}
+
+func (c *vCompiler) NewLakeDeleteQuery(rctx *runtime.Context, _ ast.Seq, commitish *lakeparse.Commitish) (runtime.DeleteQuery, error) {
+	c.op.seen = append(c.op.seen, commitish.Branch)
+	id, err := lakeparse.ParseID(commitish.Branch)
+	if err != nil {
+		return nil, err
+	}
+	snap, err := c.op.h.pool.commits.Snapshot(rctx.Context, id)
+	if err != nil {
+		return nil, err
+	}
+	q := &vDeleteQuery{}
+	if snap.Exists(vObjID(c.op.obj)) {
+		q.deleted = []ksuid.KSUID{vObjID(c.op.obj)}
+	}
+	return q, nil
+}
+
+// verif:desc C12-O6 real lake.Branch.DeleteWhere (runtime.NewContext, lake.NewWriter/Close with nothing to rewrite, Store.Snapshot of the parent, patch from the query's deletion set, Patch.NewCommitObject, Branch.commit retry loop) over a MODEL runtime.Compiler (environment: the delete query compiled for commit X deletes all of data object 0 iff X's snapshot holds it), racing with a second client's Branch.Delete of the same object (<= 1 preemption at any storage call). Asserted: the query is compiled against the tip of THAT attempt (the commitish handed to the compiler names the commit the acknowledged commit is parented on); the acknowledged operations replayed one at a time in chain order are valid and give the real, replayable tip snapshot (object 0 is never deleted twice); failed operations leave no trace.
+// verif:bounds main = c1 adding {0,1}; pairs: delete-where(object 0) / delete 0, delete 0 / delete-where(object 0), delete-where / delete-where; <= 1 preemption of A; atomic-put storage
+// verif:outside the real compiler, optimizer and meta.Deleter (which values a predicate selects: C14-O5, C16-O3); rewritten objects (lake.Writer goroutines are not reached: the query returns no values); > 1 preemption
+func VerifH_C12_O6_delete_where_race() {
+	sc := verif.Choose("scenario", 3)
+	_, a, b, _, eng := vTwoOps(false, 1, 0, func(s *vSetup, ha, hb *vHandle) (*vOp, *vOp) {
+		switch sc {
+		case 0:
+			return &vOp{kind: vOpDeleteWhere, obj: 0, h: ha}, &vOp{kind: vOpDelete, obj: 0, h: hb}
+		case 1:
+			return &vOp{kind: vOpDelete, obj: 0, h: ha}, &vOp{kind: vOpDeleteWhere, obj: 0, h: hb}
+		}
+		return &vOp{kind: vOpDeleteWhere, obj: 0, h: ha}, &vOp{kind: vOpDeleteWhere, obj: 0, h: hb}
+	})
+	verif.Assert(a.err != nil || b.err != nil, "same-object-deleted-once")
+	verif.Assert(a.err == nil || b.err == nil, "one-of-two-deletes-succeeds")
+	ctx := context.Background()
+	if f, err := vOpenClient(ctx, eng, 7); err == nil {
+		for _, o := range []*vOp{a, b} {
+			if o.kind == vOpDeleteWhere && o.err == nil {
+				obj, err := f.pool.commits.Get(ctx, o.id)
+				verif.Assert(err == nil && obj != nil && len(o.seen) > 0 && o.seen[len(o.seen)-1] == obj.Parent.String(), "query-compiled-against-the-tip-of-that-attempt")
+				if len(o.seen) > 1 {
+					verif.Reach("delete-where-retried")
+				}
+			}
+		}
+	}
+	verif.Reach("end")
+}
+
+// ---------------------------------------------------------------------------
+// C17-O4 crash inside pool create / rename / remove
+// ---------------------------------------------------------------------------
+
+func vPoolCrash(fill bool) {
+	ctx := context.Background()
+	eng := vNewEngine(fill)
+	sc := verif.Choose("scenario", 3)
+	s := vSetupLake(ctx, eng, 1, 0)
+	setupID := s.h0.pool.ID
+	root, err := Open(ctx, eng, nil, vLakePath())
+	verif.Assert(err == nil, "open")
+	op := &vPoolOp{root: root, who: 1}
+	switch sc {
+	case 0:
+		op.kind, op.name = vPoolCreate, "q"
+	case 1:
+		op.kind, op.name = vPoolRename, "q"
+	default:
+		op.kind = vPoolRemove
+	}
+	maxSteps := 7
+	if fill {
+		maxSteps = 13
+	}
+	k := verif.Choose("crashAt", maxSteps+1)
+	before := eng.steps
+	if k > 0 {
+		eng.crashAt = before + k
+	}
+	op.run(ctx, eng, setupID)
+	crashed := eng.crashed
+	verif.Observe("crashed", crashed)
+	verif.Observe("failed", op.err != nil)
+	if !crashed {
+		verif.Assert(op.err == nil, "operation-without-crash")
+		verif.Assert(eng.steps-before <= maxSteps, "crash-range-covers-all-steps")
+		// a crash step beyond the operation's last step is the same run as no crash
+		verif.Assume(k == 0)
+		verif.Reach("no-crash")
+	} else {
+		verif.Assert(op.err != nil, "crashed-operation-not-acknowledged")
+	}
+	eng.reboot()
+	poolsDir := vLakePath().JoinPath(PoolsTag)
+	head := eng.vFileAt(poolsDir, "HEAD")
+	f, err := Open(ctx, eng, nil, vLakePath())
+	if head != nil && len(head.data) == 0 {
+		// file engine: the pools journal HEAD was truncated and the crash came before its contents
+		verif.Reach("crash-head-truncated")
+		verif.Assert(err == nil, "reopens/head-truncated")
+	} else {
+		verif.Assert(err == nil, "reopens")
+	}
+	if err != nil {
+		return
+	}
+	list, err := f.ListPools(ctx)
+	verif.Assert(err == nil, "pools-listed")
+	if err != nil {
+		return
+	}
+	was := vNames{names: []string{vPoolName}, tags: []int{0}}
+	now := was.copy()
+	verif.Assert(op.apply(&now), "model-operation-valid")
+	tagOf := func(c *pools.Config) int {
+		if c.ID == setupID {
+			return 0
+		}
+		return 1 // the pool the interrupted create made (its id is only known when acknowledged)
+	}
+	matches := func(t vNames) bool {
+		if len(t.names) != len(list) {
+			return false
+		}
+		for i := range list {
+			j := t.find(list[i].Name)
+			if j < 0 || t.tags[j] != tagOf(&list[i]) {
+				return false
+			}
+		}
+		return true
+	}
+	none, all := matches(was), matches(now)
+	verif.Assert(none || all, "all-or-nothing")
+	verif.Assert(crashed || all, "acknowledged-operation-visible")
+	if all {
+		verif.Reach("interrupted-operation-landed")
+	}
+	for i := range list {
+		p, err := f.openPool(ctx, &list[i])
+		verif.Assert(err == nil, "listed-pool-opens")
+		if err != nil {
+			continue
+		}
+		b, err := p.OpenBranchByName(ctx, "main")
+		verif.Assert(err == nil, "listed-pool-has-main-branch")
+		if err == nil && list[i].ID == setupID {
+			snap, err := p.commits.Snapshot(ctx, b.Commit)
+			verif.Assert(err == nil && b.Commit == s.tip() && vSameSnap(snap, s.state), "acknowledged-data-intact")
+		}
+	}
+	// a follow-up pool creation succeeds and is visible
+	entries := vCountFiles(eng, poolsDir.Path+"/", vIsJournalEntry)
+	applied := 1 // the setup pool's entry
+	if all {
+		applied = 2
+	}
+	next := &vPoolOp{kind: vPoolCreate, name: "z", root: f, who: 2}
+	next.run(ctx, eng, setupID)
+	if crashed && entries > applied {
+		// the pools journal entry exists but HEAD still names its predecessor
+		verif.Reach("crash-head-lags")
+		verif.Assert(next.err == nil, "follow-up-create/head-lags")
+	} else {
+		verif.Assert(next.err == nil, "follow-up-create")
+	}
+	if next.err != nil {
+		return
+	}
+	g, err := Open(ctx, eng, nil, vLakePath())
+	verif.Assert(err == nil, "reopens-after-follow-up")
+	if err != nil {
+		return
+	}
+	cfg := g.pools.LookupByName(ctx, "z")
+	verif.Assert(cfg != nil && cfg.ID == next.id, "follow-up-pool-listed")
+	if cfg != nil {
+		p, err := g.openPool(ctx, cfg)
+		verif.Assert(err == nil, "follow-up-pool-opens")
+		if err == nil {
+			_, err := p.OpenBranchByName(ctx, "main")
+			verif.Assert(err == nil, "follow-up-pool-has-main-branch")
+		}
+	}
+	verif.Reach("end")
+}
+
+// verif:desc C17-O4 real lake.Root.CreatePool (lake.CreatePool: branches journal + main branch; registry entry last), RenamePool and RemovePool (registry entry first, data second) cut off by a crash at storage mutation step k; then lake.Open on the surviving state: the lake re-opens; the pool list is the one before or the one after the operation (all-or-nothing), after if acknowledged; every listed pool opens together with its main branch (a half-created or half-removed pool is never listed); the data of the existing pool is intact while it is listed; a follow-up CreatePool succeeds and is visible. Known regions split off: pools journal HEAD lags its last entry (/head-lags), file-engine HEAD truncated (/head-truncated).
+// verif:bounds lake with one pool "p" (main = c1 adding {0,1}); operation = create "q" | rename p->q | remove p; crash step k in 1..7 (asserted to cover every step) or none; atomic puts
+// verif:outside orphaned pool directories (invisible garbage is allowed); double crashes; torn writes inside one write call; create-then-fill puts (see the _fill harness)
+func VerifH_C17_O4_pool_ops_crash() { vPoolCrash(false) }
+
+// verif:desc C17-O4 (file engine) as VerifH_C17_O4_pool_ops_crash over create-then-fill storage
+// verif:bounds as VerifH_C17_O4_pool_ops_crash with crash step k in 1..13
+// verif:outside as VerifH_C17_O4_pool_ops_crash
+func VerifH_C17_O4_pool_ops_crash_fill() { vPoolCrash(true) }
